@@ -6,7 +6,7 @@
     the stream at the end of its box.  Level 0 are the leaves; a level is obtained from the previous
     one by [(a, b) |-> (4a + 2b + 100, 2b + 200)] (a standard container needs [(2a + b + 19, b + 22)];
     meta reads its content twice). *)
-From MP4 Require Import Cost CostLeaf CostLeaf2 CostLeaf3 CostLoop CostCont CostBoxes.
+From MP4 Require Import Cost CostLeaf CostLeaf2 CostLeaf3 CostLoop CostCont CostBoxes CostHvcc.
 From MP4 Require Import SafeLeaf1 SafeLeaf2 SafeLeaf3 SafeLeaf4.
 From MP4 Require Import BoxMvhd BoxMdhd BoxTkhd BoxMehd BoxMfhd BoxTfdt BoxTrex BoxSmhd BoxVmhd BoxTx3g
      BoxTfhd BoxHdlr BoxFtyp BoxStts BoxCtts BoxStsc BoxStsz BoxStss BoxStco BoxCo64 BoxElst BoxTrun
@@ -14,9 +14,15 @@ From MP4 Require Import BoxMvhd BoxMdhd BoxTkhd BoxMehd BoxMfhd BoxTfdt BoxTrex 
 From Coq Require Import ZArith ZifyN ZifyNat ZifyBool Lia.
 Open Scope N_scope.
 
+(** level 0: the largest constants among the leaves are those of avcC ([avcc_cost]: 32 + 256 NAL
+    units of at most 65 535 bytes, whose lengths are not compared with the box); the largest slopes
+    are 6 (work, emsg) and 17 (allocation, hvcC: [hvcc_spec]) *)
+Definition lv0_W : N := 18750000.
+Definition lv0_A : N := 18750000.
+
 Fixpoint lvl (k : nat) : N * N * N * N :=
   match k with
-  | O => (6, hev1_W, 2, hvcc_A)
+  | O => (6, lv0_W, 17, lv0_A)
   | S k' => let '(a, b, al, bl) := lvl k' in (4 * a + 2 * b + 100, 2 * b + 200, 4 * al + 2 * bl, 2 * bl)
   end.
 Definition lvA k := fst (fst (fst (lvl k))).
@@ -69,66 +75,74 @@ Section Tree.
 
   (** a leaf with a state-independent bound below level 0 *)
   Lemma dok_leaf {A} (dec : N -> prog A) W Al :
-    (forall s, bnd (dec s) (W s) (Al s)) -> (forall s, W s <= 6 * s + hev1_W) ->
-    (forall s, Al s <= 2 * s + hvcc_A) -> leaf_sat dec -> dok 0 dec.
+    (forall s, bnd (dec s) (W s) (Al s)) -> (forall s, W s <= 6 * s + lv0_W) ->
+    (forall s, Al s <= 17 * s + lv0_A) -> leaf_sat dec -> dok 0 dec.
   Proof.
     intros Hb Hw Ha Hs. apply dspec_of_leaf; [exact Hd|exact Hlen| |exact Hs].
     intros s. eapply bnd_weaken; [apply Hb|apply Hw|apply Ha].
   Qed.
 
   Ltac leaf_ok cost sat :=
-    apply (dok_leaf _ _ _ cost); [intros; unfold hev1_W, hvcc_W, hvcc_A; lia..|apply sat].
+    apply (dok_leaf _ _ _ cost); [intros; unfold lv0_W, lv0_A; lia..|apply sat].
 
   Lemma mvhd_ok m : dok 0 (dec_mvhd m).
-  Proof. apply (dok_leaf _ (fun _ => 400) (fun _ => 0) (mvhd_cost m)); [intros; unfold hev1_W, hvcc_W, hvcc_A; lia..|apply dec_mvhd_sat]. Qed.
+  Proof. apply (dok_leaf _ (fun _ => 400) (fun _ => 0) (mvhd_cost m)); [intros; unfold lv0_W, lv0_A; lia..|apply dec_mvhd_sat]. Qed.
   Lemma mdhd_ok m : dok 0 (dec_mdhd m).
-  Proof. apply (dok_leaf _ (fun _ => 400) (fun _ => 0) (mdhd_cost m)); [intros; unfold hev1_W, hvcc_W, hvcc_A; lia..|apply dec_mdhd_sat]. Qed.
+  Proof. apply (dok_leaf _ (fun _ => 400) (fun _ => 0) (mdhd_cost m)); [intros; unfold lv0_W, lv0_A; lia..|apply dec_mdhd_sat]. Qed.
   Lemma tkhd_ok m : dok 0 (dec_tkhd m).
-  Proof. apply (dok_leaf _ (fun _ => 400) (fun _ => 0) (tkhd_cost m)); [intros; unfold hev1_W, hvcc_W, hvcc_A; lia..|apply dec_tkhd_sat]. Qed.
+  Proof. apply (dok_leaf _ (fun _ => 400) (fun _ => 0) (tkhd_cost m)); [intros; unfold lv0_W, lv0_A; lia..|apply dec_tkhd_sat]. Qed.
   Lemma mehd_ok m : dok 0 (dec_mehd m).
-  Proof. apply (dok_leaf _ (fun _ => 400) (fun _ => 0) (mehd_cost m)); [intros; unfold hev1_W, hvcc_W, hvcc_A; lia..|apply dec_mehd_sat]. Qed.
+  Proof. apply (dok_leaf _ (fun _ => 400) (fun _ => 0) (mehd_cost m)); [intros; unfold lv0_W, lv0_A; lia..|apply dec_mehd_sat]. Qed.
   Lemma mfhd_ok m : dok 0 (dec_mfhd m).
-  Proof. apply (dok_leaf _ (fun _ => 400) (fun _ => 0) (mfhd_cost m)); [intros; unfold hev1_W, hvcc_W, hvcc_A; lia..|apply dec_mfhd_sat]. Qed.
+  Proof. apply (dok_leaf _ (fun _ => 400) (fun _ => 0) (mfhd_cost m)); [intros; unfold lv0_W, lv0_A; lia..|apply dec_mfhd_sat]. Qed.
   Lemma tfdt_ok m : dok 0 (dec_tfdt m).
-  Proof. apply (dok_leaf _ (fun _ => 400) (fun _ => 0) (tfdt_cost m)); [intros; unfold hev1_W, hvcc_W, hvcc_A; lia..|apply dec_tfdt_sat]. Qed.
+  Proof. apply (dok_leaf _ (fun _ => 400) (fun _ => 0) (tfdt_cost m)); [intros; unfold lv0_W, lv0_A; lia..|apply dec_tfdt_sat]. Qed.
   Lemma trex_ok m : dok 0 (dec_trex m).
-  Proof. apply (dok_leaf _ (fun _ => 400) (fun _ => 0) (trex_cost m)); [intros; unfold hev1_W, hvcc_W, hvcc_A; lia..|apply dec_trex_sat]. Qed.
+  Proof. apply (dok_leaf _ (fun _ => 400) (fun _ => 0) (trex_cost m)); [intros; unfold lv0_W, lv0_A; lia..|apply dec_trex_sat]. Qed.
   Lemma smhd_ok m : dok 0 (dec_smhd m).
-  Proof. apply (dok_leaf _ (fun _ => 400) (fun _ => 0) (smhd_cost m)); [intros; unfold hev1_W, hvcc_W, hvcc_A; lia..|apply dec_smhd_sat]. Qed.
+  Proof. apply (dok_leaf _ (fun _ => 400) (fun _ => 0) (smhd_cost m)); [intros; unfold lv0_W, lv0_A; lia..|apply dec_smhd_sat]. Qed.
   Lemma vmhd_ok m : dok 0 (dec_vmhd m).
-  Proof. apply (dok_leaf _ (fun _ => 400) (fun _ => 0) (vmhd_cost m)); [intros; unfold hev1_W, hvcc_W, hvcc_A; lia..|apply dec_vmhd_sat]. Qed.
+  Proof. apply (dok_leaf _ (fun _ => 400) (fun _ => 0) (vmhd_cost m)); [intros; unfold lv0_W, lv0_A; lia..|apply dec_vmhd_sat]. Qed.
   Lemma tx3g_ok m : dok 0 (dec_tx3g m).
-  Proof. apply (dok_leaf _ (fun _ => 400) (fun _ => 0) (tx3g_cost m)); [intros; unfold hev1_W, hvcc_W, hvcc_A; lia..|apply dec_tx3g_sat]. Qed.
+  Proof. apply (dok_leaf _ (fun _ => 400) (fun _ => 0) (tx3g_cost m)); [intros; unfold lv0_W, lv0_A; lia..|apply dec_tx3g_sat]. Qed.
   Lemma tfhd_ok m : dok 0 (dec_tfhd m).
-  Proof. apply (dok_leaf _ (fun _ => 400) (fun _ => 0) (tfhd_cost m)); [intros; unfold hev1_W, hvcc_W, hvcc_A; lia..|apply dec_tfhd_sat]. Qed.
+  Proof. apply (dok_leaf _ (fun _ => 400) (fun _ => 0) (tfhd_cost m)); [intros; unfold lv0_W, lv0_A; lia..|apply dec_tfhd_sat]. Qed.
   Lemma vp09_ok m : dok 0 (dec_vp09 m).
-  Proof. apply (dok_leaf _ (fun _ => 400) (fun _ => 0) (vp09_cost m)); [intros; unfold hev1_W, hvcc_W, hvcc_A; lia..|apply dec_vp09_sat]. Qed.
+  Proof. apply (dok_leaf _ (fun _ => 400) (fun _ => 0) (vp09_cost m)); [intros; unfold lv0_W, lv0_A; lia..|apply dec_vp09_sat]. Qed.
   Lemma hdlr_ok m : dok 0 (dec_hdlr m).
-  Proof. apply (dok_leaf _ (fun s => s + 400) (fun s => s) (hdlr_cost m)); [intros; unfold hev1_W, hvcc_W, hvcc_A; lia..|apply dec_hdlr_sat]. Qed.
+  Proof. apply (dok_leaf _ (fun s => s + 400) (fun s => s) (hdlr_cost m)); [intros; unfold lv0_W, lv0_A; lia..|apply dec_hdlr_sat]. Qed.
   Lemma url_ok m : dok 0 (dec_url m).
-  Proof. apply (dok_leaf _ (fun s => s + 400) (fun s => s) (url_cost m)); [intros; unfold hev1_W, hvcc_W, hvcc_A; lia..|apply dec_url_sat]. Qed.
+  Proof. apply (dok_leaf _ (fun s => s + 400) (fun s => s) (url_cost m)); [intros; unfold lv0_W, lv0_A; lia..|apply dec_url_sat]. Qed.
   Lemma ftyp_ok m : dok 0 (dec_ftyp m).
-  Proof. apply (dok_leaf _ (fun s => 2 * s + 400) (fun _ => 0) (ftyp_cost m)); [intros; unfold hev1_W, hvcc_W, hvcc_A; lia..|apply dec_ftyp_sat]. Qed.
+  Proof. apply (dok_leaf _ (fun s => 2 * s + 400) (fun _ => 0) (ftyp_cost m)); [intros; unfold lv0_W, lv0_A; lia..|apply dec_ftyp_sat]. Qed.
   Lemma stts_ok m : dok 0 (dec_stts m).
-  Proof. apply (dok_leaf _ (fun s => 2 * s + 40) (fun s => s) (stts_cost m)); [intros; unfold hev1_W, hvcc_W, hvcc_A; lia..|apply dec_stts_sat]. Qed.
+  Proof. apply (dok_leaf _ (fun s => 2 * s + 40) (fun s => s) (stts_cost m)); [intros; unfold lv0_W, lv0_A; lia..|apply dec_stts_sat]. Qed.
   Lemma ctts_ok m : dok 0 (dec_ctts m).
-  Proof. apply (dok_leaf _ (fun s => 2 * s + 40) (fun s => s) (ctts_cost m)); [intros; unfold hev1_W, hvcc_W, hvcc_A; lia..|apply dec_ctts_sat]. Qed.
+  Proof. apply (dok_leaf _ (fun s => 2 * s + 40) (fun s => s) (ctts_cost m)); [intros; unfold lv0_W, lv0_A; lia..|apply dec_ctts_sat]. Qed.
   Lemma stss_ok m : dok 0 (dec_stss m).
-  Proof. apply (dok_leaf _ (fun s => 2 * s + 40) (fun s => s) (stss_cost m)); [intros; unfold hev1_W, hvcc_W, hvcc_A; lia..|apply dec_stss_sat]. Qed.
+  Proof. apply (dok_leaf _ (fun s => 2 * s + 40) (fun s => s) (stss_cost m)); [intros; unfold lv0_W, lv0_A; lia..|apply dec_stss_sat]. Qed.
   Lemma stco_ok m : dok 0 (dec_stco m).
-  Proof. apply (dok_leaf _ (fun s => 2 * s + 40) (fun s => s) (stco_cost m)); [intros; unfold hev1_W, hvcc_W, hvcc_A; lia..|apply dec_stco_sat]. Qed.
+  Proof. apply (dok_leaf _ (fun s => 2 * s + 40) (fun s => s) (stco_cost m)); [intros; unfold lv0_W, lv0_A; lia..|apply dec_stco_sat]. Qed.
   Lemma co64_ok m : dok 0 (dec_co64 m).
-  Proof. apply (dok_leaf _ (fun s => 2 * s + 40) (fun s => s) (co64_cost m)); [intros; unfold hev1_W, hvcc_W, hvcc_A; lia..|apply dec_co64_sat]. Qed.
+  Proof. apply (dok_leaf _ (fun s => 2 * s + 40) (fun s => s) (co64_cost m)); [intros; unfold lv0_W, lv0_A; lia..|apply dec_co64_sat]. Qed.
   Lemma stsz_ok m : dok 0 (dec_stsz m).
-  Proof. apply (dok_leaf _ (fun s => 2 * s + 40) (fun s => s) (stsz_cost m)); [intros; unfold hev1_W, hvcc_W, hvcc_A; lia..|apply dec_stsz_sat]. Qed.
+  Proof. apply (dok_leaf _ (fun s => 2 * s + 40) (fun s => s) (stsz_cost m)); [intros; unfold lv0_W, lv0_A; lia..|apply dec_stsz_sat]. Qed.
   Lemma stsc_ok m : dok 0 (dec_stsc m).
-  Proof. apply (dok_leaf _ (fun s => 2 * s + 40) (fun s => 2 * s) (stsc_cost m)); [intros; unfold hev1_W, hvcc_W, hvcc_A; lia..|apply dec_stsc_sat]. Qed.
+  Proof. apply (dok_leaf _ (fun s => 2 * s + 40) (fun s => 2 * s) (stsc_cost m)); [intros; unfold lv0_W, lv0_A; lia..|apply dec_stsc_sat]. Qed.
   Lemma elst_ok m : dok 0 (dec_elst m).
-  Proof. apply (dok_leaf _ (fun s => 2 * s + 40) (fun s => 2 * s) (elst_cost m)); [intros; unfold hev1_W, hvcc_W, hvcc_A; lia..|apply dec_elst_sat]. Qed.
+  Proof. apply (dok_leaf _ (fun s => 2 * s + 40) (fun s => 2 * s) (elst_cost m)); [intros; unfold lv0_W, lv0_A; lia..|apply dec_elst_sat]. Qed.
   Lemma trun_ok m : dok 0 (dec_trun m).
-  Proof. apply (dok_leaf _ (fun s => 2 * s + 40) (fun s => s) (trun_cost m)); [intros; unfold hev1_W, hvcc_W, hvcc_A; lia..|apply dec_trun_sat]. Qed.
+  Proof. apply (dok_leaf _ (fun s => 2 * s + 40) (fun s => s) (trun_cost m)); [intros; unfold lv0_W, lv0_A; lia..|apply dec_trun_sat]. Qed.
+  (** hvcC/hev1: the position-aware contract of CostHvcc.v (the state-independent [hev1_cost] is
+      the crude constant of the field widths) *)
+  Lemma hvcc_ok m : dok 0 (dec_hvcc m).
+  Proof.
+    intros p s H8 Hp Hs. eapply ispec_mono; [exact Hd|exact Hlen|apply (hvcc_spec d Hd Hlen m); assumption|lv_norm; lia..].
+  Qed.
   Lemma hev1_ok m : dok 0 (dec_hev1 m).
-  Proof. apply (dok_leaf _ (fun _ => hev1_W) (fun _ => hvcc_A) (hev1_cost m)); [intros; unfold hev1_W, hvcc_W, hvcc_A; lia..|apply dec_hev1_sat]. Qed.
+  Proof.
+    intros p s H8 Hp Hs. eapply ispec_mono; [exact Hd|exact Hlen|apply (hev1_spec d Hd Hlen m); assumption|lv_norm; lia..].
+  Qed.
 
   Lemma data_ok m : dok 0 (dec_data m).
   Proof.
